@@ -5,6 +5,7 @@
 #include <cstdio>
 #include <cstdlib>
 #include <cstring>
+#include <unistd.h>
 #include <ctime>
 #include <string>
 #include <map>
@@ -21,6 +22,7 @@ void w_vm_set_cfg(void* p, int what, long val);
 int w_vm_execute(void* p, int action);
 long w_vm_prettify(void* p, const char* text, size_t n, char* out, size_t cap);
 int w_vm_state(void* p);
+void w_vm_add_mapping(void* p, const char* phys, const char* virt);
 static std::map<int, float> g_f; static std::map<int, int> g_b;
 void verif_log(void*, int level, size_t code, const char* msg, size_t len) { printf("LOG %d %zu %.*s\n", level, code, (int)len, msg); }
 float verif_hole_f(int id) { return g_f[id]; }
@@ -57,6 +59,23 @@ int main(int argc, char** argv)
             if (r == 2) w_vm_execute(vm, 3);
             run++;
         }
+        return 0;
+    }
+    if (op == "opcall")
+    {   // opcall <dir> <hex config> <hex prelude> <hex call> [holes]: complete registry, <dir> mapped as / and current directory, prelude, then the call
+        if (chdir(argv[2])) return 2;
+        void* vm = w_vm_new(16383, 0, 0);
+        std::string cfg = unhex(argv[3]), pre = unhex(argv[4]), call = unhex(argv[5]);
+        w_vm_add_mapping(vm, argv[2], "/");
+        char* b = (char*)malloc(cfg.size() + 1); memcpy(b, cfg.data(), cfg.size()); printf("CONFIG %d\n", w_vm_parse_config(vm, b, cfg.size()));
+        b = (char*)malloc(pre.size() + 1); memcpy(b, pre.data(), pre.size()); printf("PRELUDE %d\n", w_vm_run_sqf(vm, b, pre.size(), 0));
+        for (int i = 6; i < argc; i++)
+        {
+            if (argv[i][0] == 'f') { int id = atoi(argv[i] + 1); unsigned bits = (unsigned)strtoul(strchr(argv[i], '=') + 1, nullptr, 16); float f; memcpy(&f, &bits, 4); g_f[id] = f; }
+            else if (argv[i][0] == 'b') { int id = atoi(argv[i] + 1); g_b[id] = atoi(strchr(argv[i], '=') + 1); }
+        }
+        b = (char*)malloc(call.size() + 1); memcpy(b, call.data(), call.size());
+        printf("RESULT %d\n", w_vm_run_sqf(vm, b, call.size(), 0));
         return 0;
     }
     if (op == "cfgq")
